@@ -1390,6 +1390,22 @@ def _merge_values(vals, conds):
         return Adt(v0.kind, v0.ty, fields)
     if all(v is v0 for v in vals):
         return v0
+    if all(isinstance(v, StrV) for v in vals):
+        if v0.const is not None and all(v.const == v0.const and not v.attrs for v in vals):
+            return v0
+        # character-sequence strings of one concrete length: merge character by character
+        seqs = [v.attrs.get("seq") if v.const is None else None for v in vals]
+        if all(q is not None and z3.is_int_value(z3.simplify(q.len)) for q in seqs):
+            ns = {z3.simplify(q.len).as_long() for q in seqs}
+            if len(ns) == 1:
+                n = ns.pop()
+                items = []
+                for i in range(n):
+                    m = _merge_values([q.items[i] for q in seqs], conds)
+                    if m is None:
+                        return None
+                    items.append(m)
+                return StrV(None, seq=VecV(z3.IntVal(n), tuple(items), "char"))
     return None
 
 
